@@ -24,6 +24,7 @@ func checkC17(p *Prog, c *Check) {
 	c17Derivable(p, c)
 	c17Operators(p, c)
 	matchOperatorTable(p, c, "C17-R7")
+	absentValueRule(p, c, "C17-R8")
 }
 
 func c17Typestate(p *Prog, c *Check) {
